@@ -366,7 +366,7 @@ async fn connection_level(ctx: &Ctx, rng: &mut Rng) {
 }
 
 pub fn run(ctx: &Ctx) {
-    ctx.rule("cases = arrival histories of fragments derived from an original message the protocol's way (first fragment numbered n and carrying the start, counting down to 1): all n! arrival orders for n <= 6 (quick) / 7 (thorough) x cut patterns incl. empty fragments; random orders for n <= 64; every single duplicate (header or continuation) at every later position of every order for n <= 4/5; random duplicates, id 0 and out-of-range ids injected; 2..4 sequences with arbitrary 64-bit ids interleaved; slowly arriving sequences (gaps below the timeout, total above it, with a sweep before each arrival) must survive; expiry; the same through a real connection (fragmented messages with duplicates before and after completion, re-used sequence ids, ticks); evaluations = fragment arrivals whose return value was compared with the sequential model; distinct = distinct (n, arrival order hash, cut pattern, injected-noise kind)");
+    ctx.rule("cases = arrival histories of fragments derived from an original message the protocol's way (first fragment numbered n and carrying the start, counting down to 1): all n! arrival orders for n <= 6 (quick) / 7 (thorough) x cut patterns incl. empty fragments; random orders for n <= 64; every single duplicate (header or continuation) at every later position of every order for n <= 4/5; random duplicates, id 0 and out-of-range ids injected; 2..4 sequences with arbitrary 64-bit ids interleaved; 8..300 sequences in flight at once (round-robin, shuffled, all headers last); slowly arriving sequences (gaps below the timeout, total above it, with a sweep before each arrival) must survive; expiry; the same through a real connection (fragmented messages with duplicates before and after completion, re-used sequence ids, ticks); evaluations = fragment arrivals whose return value was compared with the sequential model; distinct = distinct (n, arrival order hash, cut pattern, injected-noise kind)");
     ctx.assume("a duplicate fragment carries the same bytes as the original (conforming peer); fragments arriving after their sequence completed start a new pending sequence in the model as they do in the assembler");
     let mut rng = Rng::derive(ctx.seed, 9, 1);
     let max_exh = ctx.pick(6usize, 7usize);
@@ -414,6 +414,61 @@ pub fn run(ctx: &Ctx) {
         ctx.count("exhaustive_duplicate_histories", count);
     }
     ctx.extra("exhaustive_up_to_n", json!(max_exh));
+    // (1c) many sequences in flight at once (a busy peer with many senders): dozens to hundreds of incomplete,
+    // unexpired sequences, their fragments interleaved round-robin, shuffled, or with every header held back to the end
+    for nseq in [8usize, 31, 32, 33, 40, 64, 100, 300] {
+        for shape in 0..3 {
+            if ctx.quick() && nseq == 300 && shape > 0 {
+                continue;
+            }
+            let mut per: Vec<Vec<Frag>> = Vec::new();
+            for k in 0..nseq {
+                let n = 2 + rng.below(3);
+                let len = 3 * n + rng.below(8);
+                let msg = message(&mut rng, len);
+                let mut cuts: Vec<usize> = (1..n).map(|_| rng.below(len + 1)).collect();
+                cuts.sort();
+                per.push(split(0xAB00_0000 + (k as u64) * 7, &msg, &cuts));
+            }
+            let all: Vec<Frag> = per.iter().flatten().cloned().collect();
+            let history: Vec<Frag> = match shape {
+                0 => {
+                    // round-robin: the first fragment of every sequence, then the second of every sequence, ...
+                    let mut h = Vec::new();
+                    for round in 0..5 {
+                        for p in &per {
+                            if let Some(f) = p.get(round) {
+                                h.push(f.clone());
+                            }
+                        }
+                    }
+                    h
+                }
+                1 => {
+                    let mut h = all.clone();
+                    rng.shuffle(&mut h);
+                    h
+                }
+                _ => {
+                    // continuations first (round-robin), all the headers at the very end
+                    let mut h = Vec::new();
+                    for round in 1..5 {
+                        for p in &per {
+                            if let Some(f) = p.get(round) {
+                                h.push(f.clone());
+                            }
+                        }
+                    }
+                    for p in &per {
+                        h.push(p[0].clone());
+                    }
+                    h
+                }
+            };
+            ctx.class(&format!("many-sequences/{}/{}", nseq, ["round-robin", "shuffled", "headers-last"][shape]));
+            run_history(ctx, &history, &all, &format!("{} sequences in flight, {}", nseq, ["round-robin", "shuffled", "headers last"][shape]));
+        }
+    }
     // (2) random orders, bigger counts, noise
     let rounds = ctx.pick(4_000usize, 400_000usize);
     for r in 0..rounds {
